@@ -49,7 +49,14 @@ class Bridge:
         if k == 'ss':
             return P.SSubst(self.to_py(t['p']), P.SVar(t['v']), self.to_py(t['g']))
         if k == 'inst':
-            return P.Instantiate(self.to_py(t['p']), frozendict({kv[0]: self.to_py(kv[1]) for kv in t['d']}))
+            # notation definitions are SHARED objects in real use (Notation.definition): keep one object per definition
+            import json as _json
+            reg = self.__dict__.setdefault('_defs', {})
+            key = _json.dumps(t['p'], sort_keys=True)
+            d = reg.get(key)
+            if d is None:
+                d = reg[key] = self.to_py(t['p'])
+            return P.Instantiate(d, frozendict({kv[0]: self.to_py(kv[1]) for kv in t['d']}))
         raise ValueError(k)
 
     def to_json(self, p) -> dict:
